@@ -420,3 +420,16 @@ PROPS["C15"] = {
 
 # C05 also judges the status and lag routes of the HTTP API (the request's group must be the one named in the URL)
 PROPS["C05"]["streams"].append(dict(_HTTP_STREAM, keys=None, spec_tags=[]))
+
+
+# Round 8: the incident records and the lock loop meet in two places.
+# C13/C14 judge the zkloop stream on `inc` (the incident a group was in before the lock was lost and regained is the one
+# its next result belongs to); C15 judges the notifier stream's notes (a refresh that cannot reach storage must leave the
+# group records — LastEval included — alone, or groups are evaluated again before their interval has passed).
+_ZK_FOR_INCIDENTS = dict(PROPS["C15"]["streams"][0], keys={"inc"}, spec_tags=[])
+PROPS["C13"]["streams"].append(_ZK_FOR_INCIDENTS)
+PROPS["C14"]["streams"].append(_ZK_FOR_INCIDENTS)
+PROPS["C13"]["rule"] += " Stream zkloop (shared with C15), judged here on `inc`: group g0 is put into an announced incident, the REAL manageEvalLoop loses and regains the Zookeeper lock as scripted, and g0's next result must carry the same event id and start."
+PROPS["C14"]["rule"] += " Stream zkloop (shared with C15), judged here on `inc`: an incident announced before the lock was lost is not announced afresh after it is regained."
+PROPS["C15"]["streams"].append(dict(_NOTIFIER_STREAM, keys={"notes"}))
+PROPS["C15"]["rule"] += " Stream notifier (shared with C13/C14), judged here on the notifications: its refresh ops include storage that takes no listing request before the time-out; the group records (LastEval among them) must survive that."
